@@ -848,12 +848,16 @@ _PARSED: dict = {}
 def _deepcopy_state(v, memo=None):
     """Deep copy of mutable abstract containers; functions, classes and objects are shared."""
     if isinstance(v, Seq):
-        return Seq([_deepcopy_state(x) for x in v.items], v.kind)
-    if isinstance(v, DictV):
-        return DictV([(k, _deepcopy_state(x)) for k, x in v.pairs])
-    if isinstance(v, SetV):
-        return SetV(list(v.items), v.frozen)
-    return v
+        n = Seq([_deepcopy_state(x) for x in v.items], v.kind)
+    elif isinstance(v, DictV) and not isinstance(v, LiveDictV):
+        n = DictV([(k, _deepcopy_state(x)) for k, x in v.pairs])
+    elif isinstance(v, SetV):
+        n = SetV(list(v.items), v.frozen)
+    else:
+        return v
+    if getattr(v, "ucls", None) is not None:
+        n.ucls, n.ufields = v.ucls, {k: _deepcopy_state(x) for k, x in v.ufields.items()}
+    return n
 
 
 # ----------------------------------------------------------------------------- interpreter
@@ -1244,6 +1248,7 @@ class Interp:
 
     # ================================================================ assignment
     def _store_name(self, name, v, fr):
+        name = mangle(name, fr.cls)      # identifiers of the form __x are mangled everywhere inside a class body (methods, class attributes, locals)
         if fr.globals_decl and name in fr.globals_decl:
             fr.module.globals[name] = v
             return
@@ -1302,8 +1307,27 @@ class Interp:
     def attr_error(self, o, name):
         return Raised(self.w.B.mkexc("AttributeError", f"{self.w.B.typename(o)} object has no attribute {name!r}"))
 
+    def uover(self, c, name):
+        """the user-defined method `name` of a container value whose class derives from a built-in container, if any"""
+        uc = getattr(c, "ucls", None)
+        if uc is None:
+            return None
+        d, owner = uc.lookup(name)
+        return d if d is not None and not owner.builtin else None
+
     def _getattr(self, o, name):
         B = self.w.B
+        uc = getattr(o, "ucls", None)
+        if uc is not None and isinstance(o, (DictV, Seq, SetV)):
+            if name in o.ufields:
+                return o.ufields[name]
+            d, owner = uc.lookup(name)
+            if d is not None and not owner.builtin:
+                return self._bind(d, o, uc)
+            if name == "__class__":
+                return uc
+            if name == "__dict__":
+                return DictV([(k, v) for k, v in o.ufields.items()])
         if isinstance(o, Obj):
             d, owner = o.cls.lookup(name)
             if isinstance(d, Prop):
@@ -1446,17 +1470,45 @@ class Interp:
                 mro = meta.mro
             else:
                 mro = obj.mro
+        elif getattr(obj, "ucls", None) is not None:
+            mro = obj.ucls.mro
         else:
             raise Unknown("super() object")
         if s.cls not in mro:
             raise Unknown("super(): class not in MRO")
         for c in mro[mro.index(s.cls) + 1 :]:
+            if c.builtin and c.name in ("dict", "list", "set", "deque") and getattr(obj, "ucls", None) is not None:
+                return Builtin(f"{c.name}.{name}", lambda I, *a, _o=obj, _n=name, _k=c.name, **k: I._raw_container_call(_o, _k, _n, a, k))
             if name in c.dict:
                 d = c.dict[name]
                 if isinstance(d, Prop):
                     return self.call(d.fget, [obj], {})
                 return self._bind(d, obj, c)
         raise self.attr_error(s, name)
+
+    def _raw_container_call(self, obj, kind, name, a, k):
+        """built-in container behaviour of a value whose class overrides it (reached through super())"""
+        saved, obj.ucls = obj.ucls, None
+        try:
+            if name == "__init__":
+                if a or k:
+                    self.call(self.getattr(obj, {"dict": "update", "list": "extend", "set": "update", "deque": "extend"}[kind]), list(a), k)
+                return None
+            if name == "__contains__":
+                return self.contains(obj, a[0])
+            if name == "__getitem__":
+                return self.getitem(obj, a[0])
+            if name == "__setitem__":
+                return self.setitem(obj, a[0], a[1])
+            if name == "__delitem__":
+                return self.delitem(obj, a[0])
+            if name == "__len__":
+                return self.w.B.f_len(self, obj)
+            if name == "__iter__":
+                return IterV(self.iterate(obj))
+            return self.call(self.getattr(obj, name), list(a), k)
+        finally:
+            obj.ucls = saved
 
     def setattr(self, o, name, v):
         B = self.w.B
@@ -1487,6 +1539,14 @@ class Interp:
             o.globals[name] = v
         elif isinstance(o, SuperV):
             raise Raised(B.mkexc("AttributeError", f"'super' object has no attribute {name!r}"))
+        elif getattr(o, "ucls", None) is not None and isinstance(o, (Seq, DictV, SetV)):
+            d, _ = o.ucls.lookup(name)
+            if isinstance(d, Prop):
+                if d.fset is None:
+                    raise Raised(B.mkexc("AttributeError", f"property {name!r} of {o.ucls.name!r} object has no setter"))
+                self.call(d.fset, [o, v], {})
+                return
+            o.ufields[name] = v
         elif o is None or isinstance(o, (int, str, float, Seq, DictV, SetV, SymStr)):
             raise Raised(B.mkexc("AttributeError", f"{B.typename(o)} object has no attribute {name!r}"))
         else:
@@ -1524,6 +1584,11 @@ class Interp:
     def truth(self, v):
         if v is True or v is False:
             return v
+        if getattr(v, "ucls", None) is not None:
+            for dn in ("__bool__", "__len__"):
+                f = self.uover(v, dn)
+                if f is not None:
+                    return self.truth(self.call(f, [v], {}))
         if v is None:
             return False
         if isinstance(v, (int, float, str, bytes)):
@@ -1555,6 +1620,12 @@ class Interp:
             return self.truth(v.d)
         if isinstance(v, SymStr):
             return True  # at least one atom or literal; atoms may be empty only if literal-free
+        if isinstance(v, ClassV) and v.meta is not None:
+            # a class is an instance of its metaclass: __bool__ / __len__ defined there decide its truth value
+            for dn in ("__bool__", "__len__"):
+                d, owner = v.meta.lookup(dn)
+                if d is not None and not owner.builtin:
+                    return self.truth(self.call(d, [v], {}))
         if isinstance(v, (ClassV, Func, Bound, Builtin, Callback, ExtV, ModuleV, Prop, Tok)):
             return True
         if isinstance(v, Opaque) and v.truthy is not None:
@@ -1574,8 +1645,9 @@ class Interp:
     def eq(self, a, b):
         """Abstract == with user __eq__ and forking on hash collisions."""
         for x, y in ((a, b), (b, a)):
-            if isinstance(x, Obj):
-                d, owner = x.cls.lookup("__eq__")
+            k = x.cls if isinstance(x, Obj) else (x.meta if isinstance(x, ClassV) else None)     # a class compares through its metaclass
+            if k is not None:
+                d, owner = k.lookup("__eq__")
                 if d is not None and not owner.builtin:
                     r = self.call(d, [x, y], {})
                     if not (isinstance(r, Obj) and r.cls.name == "NotImplementedType"):
@@ -1591,8 +1663,9 @@ class Interp:
         if a is b:
             return True
         for x in (a, b):
-            if isinstance(x, Obj):
-                d, owner = x.cls.lookup("__eq__")
+            k = x.cls if isinstance(x, Obj) else (x.meta if isinstance(x, ClassV) else None)
+            if k is not None:
+                d, owner = k.lookup("__eq__")
                 if d is not None and not owner.builtin:
                     try:
                         ha, hb = self._hv(a), self._hv(b)
@@ -1612,6 +1685,9 @@ class Interp:
         raise Unknown("hash value")
 
     def contains(self, c, x):
+        f = self.uover(c, "__contains__")
+        if f is not None:
+            return self.truth(self.call(f, [c, x], {}))
         if isinstance(c, Seq):
             for i in c.items:
                 if type(i) is Seg:
@@ -1721,7 +1797,7 @@ class Interp:
         return mkstr(parts)
 
     def ex_Name(self, e, fr):
-        n = e.id
+        n = mangle(e.id, fr.cls)
         f = fr
         if fr.globals_decl and n in fr.globals_decl:
             f = None
@@ -1775,7 +1851,7 @@ class Interp:
         return Seq(self._elts(e.elts, fr), "tuple")
 
     def ex_Set(self, e, fr):
-        return SetV(self._elts(e.elts, fr))
+        return SetV(self.w.B._uniq(self, self._elts(e.elts, fr)))
 
     def ex_Dict(self, e, fr):
         d = DictV()
@@ -2030,9 +2106,17 @@ class Interp:
         for k in c.mro:
             if k.builtin and "__construct__" in k.dict and k is not B.OBJECT:
                 # subclass of a modelled built-in (exceptions, type ...)
-                o = k.dict["__construct__"].fn(self, c, *args, **kw)
                 init, owner = c.lookup("__init__")
-                if init is not None and not owner.builtin:
+                user_init = init is not None and not owner.builtin
+                if k.name in ("dict", "list", "set", "deque") and not c.builtin:
+                    # a user class deriving from a built-in container: the container value carries its class and instance attributes
+                    o = k.dict["__construct__"].fn(self, c, *([] if user_init else args), **({} if user_init else kw))
+                    o.ucls, o.ufields = c, {}
+                    if user_init:
+                        self.call(init, [o] + list(args), kw)
+                    return o
+                o = k.dict["__construct__"].fn(self, c, *args, **kw)
+                if user_init:
                     self.call(init, [o] + list(args), kw)
                 return o
         new, owner = c.lookup("__new__")
@@ -2138,6 +2222,9 @@ class Interp:
 
     def iterate(self, v):
         """Concrete list of the elements of an abstract iterable (Unknown for opaque segments)."""
+        f = self.uover(v, "__iter__")
+        if f is not None:
+            return self.iterate(self.call(f, [v], {}))
         if isinstance(v, Seq):
             if v.has_seg():
                 raise Unknown("iterating over an opaque segment")
@@ -2188,12 +2275,21 @@ class Interp:
 
     # ================================================================ items
     def getitem(self, c, k):
+        f = self.uover(c, "__getitem__")
+        if f is not None:
+            return self.call(f, [c, k], {})
         return self.w.B.getitem(self, c, k)
 
     def setitem(self, c, k, v):
+        f = self.uover(c, "__setitem__")
+        if f is not None:
+            return self.call(f, [c, k, v], {})
         return self.w.B.setitem(self, c, k, v)
 
     def delitem(self, c, k):
+        f = self.uover(c, "__delitem__")
+        if f is not None:
+            return self.call(f, [c, k], {})
         return self.w.B.delitem(self, c, k)
 
 
